@@ -230,7 +230,7 @@ pub fn run(ctx: &mut Ctx) -> Result<(), Violation> {
             cases.push(Case::BoxSeed { seed: Hex(Fill::new(seed, &format!("C13:box:{len}:{fi}")).content(fi, len)) });
         }
     }
-    let n = ctx.tier.pick(5000usize, 400_000);
+    let n = ctx.tier.pick(8000usize, 1_500_000);
     for i in 0..n {
         let mut f = Fill::new(seed, &format!("C13:{i}"));
         let s = f.content(if i < 3 { i + 1 } else { 0 }, 32);
